@@ -572,7 +572,21 @@ func (e *Enc) encodeBuiltin(st *bstate, b *ssa.Builtin, call *ssa.CallCommon, re
 	case "print", "println":
 		return Val{}
 	case "close":
-		e.note("close(chan) (not modelled)")
+		// close panics on a nil or already closed channel; chanClosed is the built-in ghost
+		// (declared in contracts/extern/builtin.vc) recording which channels are closed
+		a := arg(0)
+		g := e.P.reg.Ghosts["chanClosed"]
+		if g == nil {
+			e.note("close(chan) (not modelled)")
+			return Val{}
+		}
+		c := e.ghostComp(g)
+		e.oblige(st, "close", e.anchor(pos, "close of nil channel"), sNot(sEq(a.T, "0")), pos)
+		e.oblige(st, "close", e.anchor(pos, "close of closed channel"), sNot(app("select", e.heapVar(st, c), a.T)), pos)
+		e.frameCheck(st, c, []string{a.T}, pos)
+		old := e.heapVar(st, c)
+		nv := e.newHeapVersion(st, c)
+		e.assume(st.reach, sEq(nv, app("store", old, a.T, "true")))
 		return Val{}
 	case "ssa:wrapnilchk":
 		return arg(0)
@@ -760,6 +774,11 @@ func fieldIndex(st *types.Struct, name string) int {
 // goroutines may have changed it while the lock was free): the guarded fields of
 // the owner and, one level down, the contents of the maps and slices they hold.
 func (e *Enc) afterLock(st *bstate, mu ssa.Value) {
+	defer func() {
+		if e.lockHeap == nil && e.depth == 0 {
+			e.lockHeap = copyHeap(st.heap) // state right after the first Lock of the function body (atlock(...))
+		}
+	}()
 	fa, ok := mu.(*ssa.FieldAddr)
 	if !ok {
 		return
@@ -791,9 +810,26 @@ func (e *Enc) afterLock(st *bstate, mu ssa.Value) {
 			e.assumeAllocated(st, nvv)
 			nv := e.newHeapVersion(st, c)
 			e.assert(sEq(nv, app("store", old, owner.T, nvv.T)))
+			// objects this function allocated and has not published before this Lock cannot be
+			// what other goroutines stored in the shared state
+			private := e.unpublishedAt(e.curInstr)
+			for _, r := range private {
+				switch ft.Underlying().(type) {
+				case *types.Pointer, *types.Map, *types.Chan:
+					e.assert(sNot(sEq(nvv.T, r)))
+				}
+			}
 			switch u := ft.Underlying().(type) {
 			case *types.Map:
 				d, v, l := e.W.mapComps(u)
+				defer func(v *Comp, u *types.Map, nvv Val) {
+					if _, isPtr := types.Unalias(u.Elem()).Underlying().(*types.Pointer); isPtr {
+						cur := app("select", e.heapVar(st, v), nvv.T)
+						for _, r := range private {
+							e.assert(fmt.Sprintf("(forall ((q %s)) (! (not (= (select %s q) %s)) :pattern ((select %s q))))", e.W.sortOf(u.Key()), cur, r, cur))
+						}
+					}
+				}(v, u, nvv)
 				for _, mc := range []*Comp{d, v, l} {
 					o := e.heapVar(st, mc)
 					n := e.newHeapVersion(st, mc)
@@ -801,6 +837,20 @@ func (e *Enc) afterLock(st *bstate, mu ssa.Value) {
 					e.assert(sEq(n, sIte(sEq(nvv.T, "0"), o, app("store", o, nvv.T, k))))
 					if mc == l {
 						e.assert(app(">=", k, "0"))
+					}
+					if mc == v {
+						// the values found in the map are objects that exist now
+						alloc := e.heapVar(st, e.allocComp())
+						ks := e.W.sortOf(u.Key())
+						switch types.Unalias(u.Elem()).Underlying().(type) {
+						case *types.Pointer:
+							e.W.needRoot()
+							e.assert(fmt.Sprintf("(forall ((q %s)) (! (<= (root (select %s q)) %s) :pattern ((select %s q))))", ks, k, alloc, k))
+						case *types.Map, *types.Chan:
+							e.assert(fmt.Sprintf("(forall ((q %s)) (! (<= (select %s q) %s) :pattern ((select %s q))))", ks, k, alloc, k))
+						case *types.Slice:
+							e.assert(fmt.Sprintf("(forall ((q %s)) (! (<= (sbase (select %s q)) %s) :pattern ((select %s q))))", ks, k, alloc, k))
+						}
 					}
 				}
 			case *types.Slice:
@@ -939,4 +989,84 @@ func (e *Enc) applyFieldFuncContract(fr *frame, st *bstate, c *Contract, sig *ty
 	// applyContract expects args[0] to be the receiver for methods: prepend a dummy
 	dummy := Val{T: "0", Typ: types.Typ[types.Int]}
 	return e.applyContract(fr, st, c, nil, m, append([]Val{dummy}, args...), resType, pos)
+}
+
+
+// unpublishedAt: references of objects allocated by the verified function (new(T), &local,
+// make) that no instruction which can execute before `at` stores anywhere, passes to a call,
+// captures in a closure, converts to an interface, sends or returns. Conservative: any such
+// use that is not dominated by `at` counts as a possible earlier publication.
+func (e *Enc) unpublishedAt(at ssa.Instruction) []string {
+	if at == nil || at.Parent() != e.fn {
+		return nil
+	}
+	after := func(u ssa.Instruction) bool { // u can only execute after at
+		if u.Block() == at.Block() {
+			return instrIndex(u) > instrIndex(at)
+		}
+		return at.Block().Dominates(u.Block())
+	}
+	var private func(v ssa.Value, seen map[ssa.Value]bool) bool
+	private = func(v ssa.Value, seen map[ssa.Value]bool) bool {
+		if seen[v] {
+			return true
+		}
+		seen[v] = true
+		refs := v.Referrers()
+		if refs == nil {
+			return false
+		}
+		for _, u := range *refs {
+			switch x := u.(type) {
+			case *ssa.DebugRef:
+			case *ssa.FieldAddr, *ssa.IndexAddr:
+				if !private(x.(ssa.Value), seen) {
+					return false
+				}
+			case *ssa.Store:
+				if x.Val == v && !after(x) {
+					return false
+				}
+			case *ssa.UnOp: // load through the pointer
+				if x.Op != token.MUL {
+					return false
+				}
+			case *ssa.Field, *ssa.Index:
+			default:
+				if !after(u) {
+					return false
+				}
+			}
+		}
+		return true
+	}
+	var out []string
+	for _, b := range e.fn.Blocks {
+		for _, in := range b.Instrs {
+			var v ssa.Value
+			switch x := in.(type) {
+			case *ssa.Alloc:
+				v = x
+			case *ssa.MakeMap:
+				v = x
+			case *ssa.MakeChan:
+				v = x
+			}
+			if v == nil {
+				continue
+			}
+			val, ok := e.vals[v]
+			if !ok || val.T == "" || val.Loc != nil {
+				continue
+			}
+			// allocated before at on every path to it
+			if !(in.Block() == at.Block() && instrIndex(in) < instrIndex(at) || in.Block() != at.Block() && in.Block().Dominates(at.Block())) {
+				continue
+			}
+			if private(v, map[ssa.Value]bool{}) {
+				out = append(out, val.T)
+			}
+		}
+	}
+	return out
 }
